@@ -7,7 +7,7 @@ import vlib
 
 PID = "C15"
 FILES = ["theories/Properties/C15.v", "theories/Examples/C15Examples.v", "theories/Examples/C15Paging.v",
-         "theories/Examples/C15Wirings.v"]
+         "theories/Examples/C15Wirings.v", "theories/Examples/C15Family.v"]
 
 
 def families(sch):
@@ -43,6 +43,8 @@ def fam_reads(sch, tx):
         if p[0] in ("Q", "V", "L", "I", "QS"):   # id sets (the property does not order them)
             out.append("%s:%s:%s" % (p[0], p[1], ",".join(sorted(x for x in p[2].split(",") if x))))
         elif p[0] in ("LF", "QP"):     # QP: paged / sorted / counted queries - count and ORDERED page, verbatim
+            out.append(t)
+        elif p[0] in ("LK", "LKD", "RE"):   # every lookup variant of the store API (store_c15w6.go), verbatim
             out.append(t)
     return tuple(sorted(out))
 
@@ -183,6 +185,136 @@ def qp_oracle(sch, fam, ents, child, fv, cfv, other):
                            "rows lost: rows the store does not show took part in the limit" if len(got) < n_want
                            else "rows the store does not show took part in the skip")))
     return out
+
+
+LK_NAMES = dict(fb="FindById", lb="LoadById", le="LoadEntity", ep="IsEntityPresent", eb="GetEntityBucket",
+                vi="IterateValidIds.Seek")
+LK_STATS = dict(lookups=0, through_parent=0, through_plain_child=0, through_extended_child=0,
+                extended_child_over_entities_without_extension_data=0, families_with_several_child_stores=0,
+                related_helper_answers=0)
+
+
+def lookup_oracle(sch, fam, ents, child, sets, other):
+    """every lookup variant of the store API (tokens LK:<store>:<variant>:<ids found among the probe ids>, LKD, RE) against
+    the entity facts of the implementation and against one another: through the parent store every variant finds exactly
+    the entities; through a plain child store exactly the entities with child data; through an extended child store the
+    loading variants (FindById, LoadById, LoadEntity) find EVERY parent entity - what the store's query shows - and the
+    bucket-level variants (IsEntityPresent, GetEntityBucket, IterateValidIds) the entities with extension data.
+    -> list of (key, description)"""
+    out = []
+    lk = {}
+    for t in other:
+        p = t.split(":")
+        if p[0] == "LK" and len(p) == 4:
+            lk.setdefault(p[1], {})[p[2]] = sorted(x for x in p[3].split(",") if x)
+    for r, cs in fam.items():
+        all_ids = sorted(ents.get(r, ()))
+        LK_STATS["families_with_several_child_stores"] += len(cs) > 1
+        for s in [r] + cs:
+            if s not in lk:
+                continue
+            kind = "parent" if s == r else ("extended" if sch.stores[s]["ext"] else "plain")
+            with_data = sorted(i for i in all_ids if (r, i, s) in child) if s != r else all_ids
+            LK_STATS["lookups"] += len(lk[s])
+            LK_STATS["through_parent" if kind == "parent" else "through_%s_child" % kind] += 1
+            if kind == "extended" and len(with_data) < len(all_ids):
+                LK_STATS["extended_child_over_entities_without_extension_data"] += 1
+            bad = []
+            for v in ("fb", "lb", "le", "ep", "eb", "vi"):
+                got = lk[s].get(v, [])
+                want = all_ids if (kind == "extended" and v in ("fb", "lb", "le")) else with_data
+                if got != want:
+                    bad.append((v, got, want))
+            if bad:
+                v, got, want = bad[0]
+                agree = [LK_NAMES[w] for w in ("fb", "lb", "le", "ep", "eb", "vi") if lk[s].get(w, []) == want and
+                         (w in ("fb", "lb", "le")) == (v in ("fb", "lb", "le"))]
+                out.append(("C15:lookup-%s" % (kind if kind == "parent" else kind + "-child"),
+                            "%s through %s store %s finds %s, expected %s (parent entities %s, with data of %s: %s)%s%s"
+                            % (LK_NAMES[v], kind if kind == "parent" else kind + " child", s, got, want, all_ids, s, with_data,
+                               "; %s of the same store find(s) %s: the lookups of one store disagree" % (", ".join(agree), want) if agree else "",
+                               "; also wrong: " + ", ".join(LK_NAMES[w] for w, _, _ in bad[1:]) if len(bad) > 1 else "")))
+    for t in other:
+        p = t.split(":")
+        if p[0] == "LKD":
+            out.append(("C15:lookup-variants-differ", "store %s, id %s: the entities handed out differ (%s)" % (p[1], p[2], p[3])))
+        elif p[0] == "RE" and len(p) == 7:
+            s, i, sf = p[1], p[2], p[3]
+            r = sch.root(s)
+            if r not in fam or sf not in sch.stores[r]["sets"]:
+                continue
+            LK_STATS["related_helper_answers"] += 1
+            want = sorted(sets.get((r, i, sf), set())) if s == r else []
+            answers = [sorted(x for x in p[k].split(".") if x) for k in (4, 5, 6)]
+            if any(a != want for a in answers):
+                out.append(("C15:related-helpers", "string list %s of %s through store %s: GetRelatedEntitiesIdList %s, "
+                            "GetRelatedEntitiesCursor %s, IsEntityRelated true for %s; stored %s" % (sf, i, s, answers[0], answers[1], answers[2], want)))
+    # a stored, non-empty string list the parent's helpers do not show at all
+    if any(t.startswith("LK:") for t in other):
+        shown = set((p[1], p[2], p[3]) for p in (t.split(":") for t in other) if p[0] == "RE")
+        for (r, i, sf), members in sets.items():
+            if r in fam and sf in sch.stores[r]["sets"] and members and (r, i, sf) not in shown:
+                out.append(("C15:related-helpers", "string list %s of %s through the parent store %s: the helpers show nothing, stored %s"
+                            % (sf, i, r, sorted(members))))
+    return out
+
+
+def child_level(sch, fam):
+    """(fk indexes, set indexes) DECLARED ON A CHILD STORE of a family: [(child, field, target, back)], [(child, setfield)]"""
+    fks, sis = [], []
+    for r, cs in fam.items():
+        for c in cs:
+            for cn in sch.stores[c]["cons"]:
+                if cn[0] == "FI":
+                    fks.append((c, cn[1], cn[2], cn[3]))
+                elif cn[0] == "SI":
+                    sis.append((c, cn[1]))
+    return fks, sis
+
+
+def child_level_oracle(sch, fam, facts, ents, child, cfv, sets):
+    """storefam.index_oracle / fk_oracle read an index declared on a CHILD store as if every entity of the parent took part in
+    it; the entities of a child-level index are those with data of that child store, and the field of a child-level fk index
+    lives in the child data.  -> (problems of the set indexes, problems of the fk indexes), same wording"""
+    fks, sis = child_level(sch, fam)
+    ip, fp = [], []
+    for c, setf in sis:
+        r = sch.root(c)
+        want = set((m, i) for i in ents.get(r, ()) if (r, i, c) in child for m in sets.get((r, i, setf), ()))
+        have, keys = set(), set()
+        for f in facts:
+            q = f.split(":")
+            if q[0] == "X" and q[1] == r and q[2] == setf:
+                have.add((q[3], q[4]))
+            elif q[0] == "XK" and q[1] == r and q[2] == setf:
+                keys.add(q[3])
+        for m, i in sorted(want - have):
+            ip.append("set index %s.%s: entity %s holds %s but is not indexed" % (c, setf, i, m))
+        for m, i in sorted(have - want):
+            ip.append("set index %s.%s: stale entry %s -> %s" % (c, setf, m, i))
+        for k in sorted(keys - set(m for m, _ in have)):
+            ip.append("set index %s.%s: empty index key %s left behind" % (c, setf, k))
+    for c, field, target, back in fks:
+        r, troot = sch.root(c), sch.root(target)
+        refs = {}
+        for i in ents.get(r, ()):
+            v = cfv.get((r, i, c, field), "absent")
+            if (r, i, c) in child and v.startswith("s") and v != "s-":
+                if v[1:] not in ents.get(troot, ()):
+                    fp.append("fk %s.%s: entity %s references missing %s %s" % (c, field, i, target, v[1:]))
+                refs.setdefault(v[1:], set()).add(i)
+        for t in ents.get(troot, ()):
+            have, want = sets.get((troot, t, back), set()), refs.get(t, set())
+            if have != want:
+                fp.append("fk %s.%s: back-references %s.%s of %s are %s, referrers are %s" % (c, field, target, back, t, sorted(have), sorted(want)))
+    return ip, fp
+
+
+def not_child_level(sch, fam, probs):
+    """the problems storefam's oracles report, without those about an index declared on a child store (judged above)"""
+    fks, sis = child_level(sch, fam)
+    skip = tuple("fk %s.%s:" % (c, f) for c, f, _, _ in fks) + tuple("set index %s.%s:" % (c, f) for c, f in sis)
+    return [x for x in probs if not x.startswith(skip)] if skip else probs
 
 
 DW_STATS = dict(delete_where_ops=0, committed=0, judged=0, through_parent=0, through_plain_child=0, through_extended_child=0,
@@ -331,6 +463,9 @@ def oracle(sch, txs, io, mo):
         # ---- paged / sorted / counted queries through every store of the family (every state)
         for key, desc in qp_oracle(sch, fam, ents, child, fv, cfv, a["other"]):
             out.append((key, desc, k))
+        # ---- every lookup variant through every store of the family agrees with the entities and with the others (every state)
+        for key, desc in lookup_oracle(sch, fam, ents, child, sets, a["other"]):
+            out.append((key, desc, k))
         if out:
             break
         # ---- the parent's constraints apply identically to an entity created through a child store: a create that reports
@@ -362,12 +497,15 @@ def oracle(sch, txs, io, mo):
             # ---- parent (and child) indexes mirror the entities, child entities included
             probs = storefam.index_oracle(sch, [f for f in a["facts"] if f.split(":")[0] in ("E", "F", "CF", "C", "S", "U", "X", "XK")
                                                 and f.split(":")[1] in fam])
+            ci_probs, cfk_probs = child_level_oracle(sch, fam, a["facts"], ents, child, cfv, sets)
+            probs = not_child_level(sch, fam, probs) + ci_probs
             if probs:
                 out.append(("C15:parent-index", "after a committed transaction: " + "; ".join(probs[:3]), k))
             # ... and so do the fk indexes (back-reference sets in the target stores) of the family's stores: a create / update /
             # delete through either store leaves exactly the referrers in them
             famstores = set(fam) | set(c for cs in fam.values() for c in cs)
-            fkp = [x for x in storefam.fk_oracle(sch, a["facts"]) if x.split(" ")[1].split(".")[0] in famstores]
+            fkp = [x for x in not_child_level(sch, fam, storefam.fk_oracle(sch, a["facts"])) if x.split(" ")[1].split(".")[0] in famstores]
+            fkp += cfk_probs
             if fkp:
                 out.append(("C15:parent-fk-index", "after the committed transaction [%s]: %s" % (
                     ", ".join("%s %s %s" % (dict(C="Create", UP="Update", D="DeleteById", DW="DeleteWhere").get(o["kind"], o["kind"]),
@@ -396,8 +534,15 @@ def oracle(sch, txs, io, mo):
                     plain_parent_via_child = is_child_store and (earlier or not had_child)
                     if not plain_parent_via_child:
                         left = [f for f in a["facts"] if f.split(":")[0] in ("E", "C", "CF", "F", "S") and f.split(":")[1] == r and f.split(":")[2] == i]
+                        # ... and no index kept for the family - the parent's or ANY child store's own - still points at the id
+                        for f in a["facts"]:
+                            q = f.split(":")
+                            if q[0] in ("U", "X") and q[1] == r and q[-1] == i:
+                                owner = [c for c in [r] + fam[r] if any(cn[0] in ("U", "SI") and cn[1] == q[2] for cn in sch.stores[c]["cons"])]
+                                left.append("%s (index of %s)" % (f, "/".join(owner) or r))
                         if left:
-                            out.append(("C15:delete-left-parts", "after DeleteById of %s through %s: %s remain" % (i, s0, left[:4]), k))
+                            out.append(("C15:delete-left-parts", "after DeleteById of %s through %s (child stores of %s: %s; data of %s before): %s remain"
+                                        % (i, s0, r, fam[r], [c for c in fam[r] if (r, i, c) in pchild] or "none", left[:4]), k))
                 if op["kind"] in ("C", "UP") and not touched:
                     chk = op.get("checker") if op["kind"] == "UP" else None
                     for f, ptr in sch.stores[r]["fields"]:
@@ -494,7 +639,9 @@ def main(argv):
         "adaptive seeded histories (2-9 transactions x 1-3 ops) over a parent with a plain child store (idx: emp+mgr, parent carries unique, "
         "nullable unique, set, fk indexes and links; the child its own unique index) and a parent with an extended child store (casc: b+bx under "
         "cascade-delete fk indexes), plus C15np / C15nx (store_c15w3.go): parents with unique / set / fk indexes whose plain / extended child store "
-        "declares nothing but fields: create / full and field-checker update / DeleteById / DeleteWhere (filter true or <field> = <value an existing "
+        "declares nothing but fields, plus C15mxp / C15mpx / C15mpp / C15m3 (store_c15w6.go): ONE parent with SEVERAL child stores (extended registered "
+        "before / after a plain one that owns a unique index and an fk index; two plain; three) - every child store keeps index entries of its own: "
+        "create / full and field-checker update / DeleteById / DeleteWhere (filter true or <field> = <value an existing "
         "entity holds>, mostly one plain parents satisfy too) through EITHER store over mixed populations of plain-parent "
         "and child entities. After every transaction the bolt file is traversed and every store is read through QueryIds (unsorted and sorted), "
         "IterateIds, IterateValidIds, FindById and LoadById (field values), and through ~25 paged / sorted / counted queries per family store "
@@ -507,10 +654,17 @@ def main(argv):
         "child sees the parent's fields; shared fields, child fields and the parent's indexes reflect an update through either store; a patch "
         "leaves unnamed fields as stored; a delete through either store leaves no part; DeleteWhere through a store deletes exactly the entities "
         "that store's query shows for the filter (both parts) and nothing else; a create the parent's constraints refuse is refused through the "
-        "child store too; parent unique / set / fk indexes mirror child entities. Non-trivial: mixed population and a committed update/delete of an entity with child data.",
+        "child store too; parent unique / set / fk indexes mirror child entities (indexes declared on a child store: over the entities with data of "
+        "that store). EVERY lookup variant of the store API through every store of a family, for the ids a..f and every stored id (LK / LKD / RE "
+        "tokens): FindById, LoadById, LoadEntity, IsEntityPresent, GetEntityBucket, IterateValidIds.Seek agree with the entities per store kind and "
+        "with one another (parent: all entities; plain child: entities with child data; extended child: loading variants all parent entities, "
+        "bucket-level variants those with extension data), the entities the loading variants hand out are equal, GetRelatedEntitiesIdList / "
+        "GetRelatedEntitiesCursor / IsEntityRelated show the stored string lists through the parent; after a DeleteById through ANY store of the family "
+        "no entity / child data / field / set fact and no unique- or set-index entry of the parent's or ANY child store's index names the id. Non-trivial: mixed population and a committed update/delete of an entity with child data.",
         nontrivial=nontrivial)
     c.cov["paged_queries"] = dict(QP_STATS)
     c.cov["delete_where"] = dict(DW_STATS)
+    c.cov["lookups"] = dict(LK_STATS)
     if not proof_ok:
         c.violation(PID + ":proof", "proof obligation no longer checks: %s" % json.dumps(c.proof_broken)[:600],
                     dict(broken=c.proof_broken), no_input=True)
